@@ -95,7 +95,7 @@ def one_run(wd, run, fault=None):
     fault the run happens in a forked child.  Returns (trace or None, number of I/O calls)."""
     case = {"kind": "assign", "colls": [{"rows": copy.deepcopy(run["rows"])}], "extra_levels": [], "dedup": run.get("dedup", True),
             "rollup": run.get("rollup", True), "decoys": run.get("decoys", True), "chunk": run["chunk"], "fmt": run["fmt"],
-            "prefixes": [run["prefix"]] if run["prefix"] else None, "workers": 1}
+            "prefixes": [run["prefix"]] if run["prefix"] else None, "workers": 1, "sqlite": bool(run.get("sqlite"))}
     if fault and fault[1]:
         sys.stdout.flush()
         pid = os.fork()
@@ -128,6 +128,14 @@ def classify(name):
 def files_of(tr, run):
     levels = ["psms"] + (["peptides"] if run.get("rollup", True) else [])
     out = []
+    if run.get("sqlite"):
+        # the result "files" of a run into an SQLite database are its tables (rows as ints; table / id strings hashed)
+        import zlib
+        by = {}
+        for tbl, ident, q, s4 in tr.get("sqlite_rows", []):
+            qq = Fraction(q[0], q[1]) if q[2] else Fraction(-1, 1)
+            by.setdefault(tbl, []).append([zlib.crc32(ident.encode()) & 0x3FFFFFFF, int(s4), qq.numerator, qq.denominator])
+        return [{"name": k, "rows": by[k]} for k in sorted(by)]
     for f in sorted(tr["files"], key=lambda f: (f["level"], f["td"])):
         if f["level"] not in levels or (f["td"] == "d" and not run.get("decoys", True)):
             continue
@@ -158,8 +166,8 @@ def run_scenario(sc):
         ext = "." + last["fmt"]
         return {"kind": "assign",
                 "last": {"pfx": last["prefix"] or "", "ext": ext, "nchunks": (n + last["chunk"] - 1) // last["chunk"]},
-                "clean": {"raised": ct["raised"] + ("" if not ct["missing"] else " missing"), "files": files_of(ct, last), "input_after": []},
-                "dirty": {"raised": tr["raised"] + ("" if not tr["missing"] else " missing"), "files": files_of(tr, last),
+                "clean": {"raised": ct["raised"] + ("" if (not ct["missing"] or last.get("sqlite")) else " missing"), "files": files_of(ct, last), "input_after": []},
+                "dirty": {"raised": tr["raised"] + ("" if (not tr["missing"] or last.get("sqlite")) else " missing"), "files": files_of(tr, last),
                           "input_after": [], "listing": listing}}
     except Exception as e:
         import traceback
@@ -333,6 +341,16 @@ def run(ctx):
             for kill in (False, True):
                 scenarios.append({"earlier": [{"run": e, "fault": (k, kill)}], "last": last, "class": (k1, p1, k2, p2, fmt)})
         scenarios.append({"earlier": [{"run": e, "fault": None}], "last": last, "class": (k1, p1, k2, p2, fmt)})     # a completed, different run
+    # results written to an SQLite database: after an earlier text run / a failed run / into a fresh directory
+    for j in range(6 if ctx.quick else 60):
+        pf = PFX[j % len(PFX)] if j % 2 else None
+        e = make_run(rng, 1 + j % 3, pf, "pin")
+        last = make_run(rng, 1 + (j // 3) % 3, pf, "pin", idbase=50)
+        last["sqlite"] = True
+        if j % 3 == 2:
+            e["sqlite"] = True
+        scenarios.append({"earlier": [] if j % 6 == 5 else [{"run": e, "fault": (int(rng.integers(1, 30)), False) if j % 3 == 1 else None}],
+                          "last": last, "class": ("sqlite", j)})
     # sequences of two earlier runs (three-run histories), crash points sampled
     g3 = run_tlc("Workdir", "Workdir_gen3.cfg", workers=1)
     skel3 = [(p[1], p[2]) for p in g3.prints if p and p[0] == "CASE" and len(p[1]) == 2]
